@@ -169,6 +169,16 @@ UpdateJoinOp(t, u) ==
             ELSE R(T(t.cols, [i \in 1..Len(t.rows) |-> IF i \in matched THEN [t.rows[i] EXCEPT ![tv] = u.rows[CHOOSE j \in part(i) : TRUE][uv]] ELSE t.rows[i]]),
                    Cardinality(matched))
 
+\* DELETE tx FROM u ux JOIN t tx ON tx.id = ux.id : the rows of t (the SECOND table of the join) that have a partner in u go,
+\* each once however many partners it has; the count is the number of rows of t deleted
+DeleteJoinOp(t, u) ==
+  IF u.absent THEN F("FileNotExist")
+  ELSE IF ~Has(t, "id") \/ ~Has(u, "id") THEN (IF t.rows = <<>> \/ u.rows = <<>> THEN R(t, 0) ELSE F("FieldNotExist"))
+  ELSE LET ti == ColIdx(t, "id")  ui == ColIdx(u, "id")
+           gone == {i \in 1..Len(t.rows) : t.rows[i][ti] # -1 /\ \E j \in 1..Len(u.rows) : u.rows[j][ui] = t.rows[i][ti]}
+           keep == SelectSeq([i \in 1..Len(t.rows) |-> [i |-> i, r |-> t.rows[i]]], LAMBDA x : x.i \notin gone) IN
+       R(T(t.cols, [j \in 1..Len(keep) |-> keep[j].r]), Cardinality(gone))
+
 \* ALTER TABLE t ADD x DEFAULT id FIRST : a new first column holding the id of its row
 AddFirstOp(t) == IF Has(t, "x") THEN F("DuplicateFieldName")
                  ELSE IF ~Has(t, "id") THEN (IF t.rows = <<>> THEN R(T(<<"x">> \o t.cols, <<>>), 1) ELSE F("FieldNotExist"))
@@ -276,6 +286,14 @@ InsertCols(t, k) == RowsOk(t, 1) /\ Dml(t, InsertColsOp(ForUpdate(t), k), FALSE)
 \* INSERT INTO t VALUES (k, 1), (k + 1) : the second row is too short; nothing is inserted
 InsertBad2(t, k) == Dml(t, InsertOp(ForUpdate(t), <<<<k, 1>>, <<k + 1>>>>), FALSE)
 UpdateJoin(t, u) == u # t /\ DmlR(t, UpdateJoinOp(ForUpdate(t), IF u = TempT THEN temp.cur ELSE ForUpdate(u)), FALSE, {}, {u} \ {TempT})
+\* (the tables of the FROM clause are loaded in the order written: u is loaded - for update, and stays held - before t is missed)
+DeleteJoin(t, u) ==
+  /\ u # t
+  /\ IF t # TempT /\ ForUpdate(t).absent /\ u # TempT
+       THEN /\ out' = Err("FileNotExist") /\ ended' = Script
+            /\ cache' = [cache EXCEPT ![u] = Loaded(ForUpdate(u), TRUE)]
+            /\ UNCHANGED <<disk, dirty, created, temp, envn, enc>>
+       ELSE DmlR(t, DeleteJoinOp(ForUpdate(t), IF u = TempT THEN temp.cur ELSE ForUpdate(u)), FALSE, {}, {u} \ {TempT})
 AddFirst(t)      == Dml(t, AddFirstOp(ForUpdate(t)), TRUE)
 AddFail(t, k)    == Dml(t, AddFailOp(ForUpdate(t), k), TRUE)
 AddCol(t)        == Dml(t, AddColOp(ForUpdate(t)), TRUE)
@@ -400,6 +418,7 @@ Do(a) ==
        [] a.act = "insertcols" -> InsertCols(a.t, a.k)
        [] a.act = "insertbad2" -> InsertBad2(a.t, a.k)
        [] a.act = "updatejoin" -> UpdateJoin(a.t, a.u)
+       [] a.act = "deletejoin" -> DeleteJoin(a.t, a.u)
        [] a.act = "addfirst" -> AddFirst(a.t)
        [] a.act = "addfail"  -> AddFail(a.t, a.k)
        [] a.act = "updateswap" -> UpdateSwap(a.t, a.k)
@@ -428,7 +447,7 @@ Actions ==
   \cup {A(r, t, k, x) : r \in {"replace", "replace3"}, t \in Tables, k \in Keys, x \in Vals}
   \cup {A(x, t, 0, 0) : x \in {"selectsub", "selectagg", "addfirst"}, t \in Tables}
   \cup {A(x, t, k, 0) : x \in {"insertcols", "insertbad2", "addfail"}, t \in Tables, k \in Keys}
-  \cup {A2(x, t, u) : x \in {"insertsel", "updatejoin"}, t \in Tables, u \in Tables \ {NewFile}}
+  \cup {A2(x, t, u) : x \in {"insertsel", "updatejoin", "deletejoin"}, t \in Tables, u \in Tables \ {NewFile}}
   \cup {A("updateswap", t, k, 0) : t \in Tables, k \in Keys \cup {0}}
   \cup {A("inserth", t, k, 0) : t \in Tables, k \in Keys}
   \cup {A("selectfn", t, 0, 0) : t \in AllFiles}
